@@ -279,7 +279,7 @@ func (w *worker) run(op string, args []string) (string, string, string) {
 			p = append(p, "")
 		}
 		return p[0], p[1], p[2]
-	case <-time.After(20 * time.Second):
+	case <-time.After(caseTimeout):
 		w.kill()
 		return "fatal:timeout", "-", ""
 	}
@@ -360,6 +360,11 @@ func main() {
 }
 
 // allocsPerRun: average number of heap allocations per call of f (runtime.MemStats.Mallocs delta).
+// caseTimeout: a supervised case that takes longer is reported as fatal:timeout (a hang IS a violation of the
+// never-hangs properties). The slowest legitimate cases (documents nested millions of levels deep, race-detector children)
+// take a few seconds on an idle machine; the margin is for loaded machines, where a 20 s limit raised false alarms.
+const caseTimeout = 90 * time.Second
+
 // allocsPerRun: mallocs per call of f. runtime.MemStats counts the whole process, so mallocs of other goroutines (GC
 // workers, the output writer) can fall between the two readings: the MINIMUM over several attempts is reported — a function
 // that does not allocate has an attempt without strays, a function that allocates shows at least `runs` mallocs every time.
